@@ -105,6 +105,14 @@ fn judge_pair(case: &Case, l: &mut Local) {
                 };
                 l.bucket("arc of one circle inside the other");
                 l.check("the intersection interval is the arc of the first circle inside the second", kind, ok, mk, || format!("r0 {} r1 {} d {}: {:?}", r0, r1, d, iv));
+            } else if pts.len() == 1 && finite {
+                // tangent circles: the interval degenerates to the tangent point, seen from the first circle
+                let ok = match &iv {
+                    Some(iv) => (c0.point_at_angle(iv.at_fraction(0.0)) - pts[0]).norm() <= 1e-7 * (1.0 + off.norm()) && (c0.point_at_angle(iv.at_fraction(1.0)) - pts[0]).norm() <= 1e-7 * (1.0 + off.norm()),
+                    None => false,
+                };
+                l.bucket("interval of tangent circles");
+                l.check("the intersection interval of tangent circles is the tangent point on the first circle", kind, ok, mk, || format!("r0 {} r1 {} d {}: {:?} for tangent point {:?}", r0, r1, d, iv, pts[0]));
             } else if pts.is_empty() {
                 l.check("no intersection interval without intersection points", kind, iv.is_none(), mk, || format!("{:?}", iv));
             }
@@ -465,6 +473,31 @@ fn judge_arc(case: &Case, l: &mut Local) {
         judge_aabb(&full, &mk, "full circle", l);
         let bb = c.aabb();
         l.check("circle bounding box is centre +- radius", "", (bb.mins - Point2::new(cx - r, cy - r)).norm() <= 1e-12 && (bb.maxs - Point2::new(cx + r, cy + r)).norm() <= 1e-12, mk, String::new);
+        // circles that come out of the other constructors carry their own box too: through three of its
+        // points, fitted from a guess elsewhere, found by RANSAC, built around a point
+        let samples: Vec<Point2> = (0..24).map(|i| c.point_at_angle(0.1 + i as f64 * std::f64::consts::TAU / 24.0)).collect();
+        let guess = Circle2::new(cx + 0.3 * r, cy - 0.2 * r, 1.2 * r);
+        let built: Vec<(&str, Option<Circle2>)> = vec![
+            ("three points", Circle2::from_3_points(samples[0], samples[7], samples[15]).ok()),
+            ("fitted", Circle2::fitting_circle(&samples, &guess, engeom::common::BestFit::All).ok()),
+            ("ransac", Circle2::ransac(&samples, 1e-6 * r, Some(50), None, None).ok()),
+            ("from point", Some(Circle2::from_point(Point2::new(cx, cy), r))),
+        ];
+        for (name, made) in built {
+            match made {
+                Some(m) => {
+                    let bb = m.aabb();
+                    let e = 1e-9 * (1.0 + r + cx.abs() + cy.abs());
+                    let ok = (bb.mins - Point2::new(m.x() - m.r(), m.y() - m.r())).norm() <= e && (bb.maxs - Point2::new(m.x() + m.r(), m.y() + m.r())).norm() <= e && (m.x() - cx).abs() <= 1e-6 * (1.0 + r) && (m.r() - r).abs() <= 1e-6 * (1.0 + r);
+                    l.bucket("circle from another constructor");
+                    l.check("circle bounding box is centre +- radius", name, ok, mk, || format!("{}: centre ({}, {}) r {} box {:?}..{:?}", name, m.x(), m.y(), m.r(), bb.mins, bb.maxs));
+                    judge_aabb(&m.to_arc(), &mk, name, l);
+                }
+                None => {
+                    l.check("circle constructors return on exact samples", name, false, mk, String::new);
+                }
+            }
+        }
     }
 }
 
@@ -617,7 +650,7 @@ pub fn run(tier: Tier) -> i32 {
     let mut cx = Ctx::new("C11", tier, "exploration");
     cx.rule = "circle pairs: r0 in {0.5,1,2} x r1 in {0.5,1,2,3} x 6 regimes (concentric, nested, internally tangent, crossing, externally tangent, separate) x 13 directions (4 exactly representable) x 2 global offsets; external points at d/r in {1+1e-6, 1.2, sqrt2, 2, 5, 100} x 13 directions x 3 radii; outer tangents over radius pairs x 4 separations; lines/segments through a 7x7 grid of origins x 13 directions x 2 lengths; every small lattice curve against 5 circles; every ordered pair of integer points of a 13x13 lattice as a segment against integer circles (r in {1,2,5}, two centres), count decided in exact integer arithmetic; arcs over 3 centres x 2 radii x 30 start angles (k*pi/2 and +-1e-9) x 12 signed sweeps up to +-2pi; three-point arcs from every ordered triple of the 3x3 lattice at 3 scales and 2 offsets. distinct = distinct cases".into();
     cx.bounds = json!({"directions": dirs().len(), "ratios": RATIOS, "separations": SEPS, "sweeps": SWEEPS.len(), "start_angles": arc_angles().len()});
-    cx.require(&["concentric", "nested", "internally tangent", "crossing", "externally tangent", "separate", "arc of one circle inside the other", "tangent from d/r = sqrt 2", "tangent from another distance ratio", "outer tangents, equal radii", "outer tangents, larger to smaller", "outer tangents, smaller to larger", "line tangent to the circle", "line missing the circle", "line crossing the circle", "curve against circle", "segment with an end point exactly on the circle", "segment missing the circle", "segment crossing the circle", "clockwise arc", "counter-clockwise arc", "collinear triple", "general triple", "general triple with coordinates below 0.01"]);
+    cx.require(&["concentric", "nested", "internally tangent", "crossing", "externally tangent", "separate", "arc of one circle inside the other", "circle from another constructor", "interval of tangent circles", "tangent from d/r = sqrt 2", "tangent from another distance ratio", "outer tangents, equal radii", "outer tangents, larger to smaller", "outer tangents, smaller to larger", "line tangent to the circle", "line missing the circle", "line crossing the circle", "curve against circle", "segment with an end point exactly on the circle", "segment missing the circle", "segment crossing the circle", "clockwise arc", "counter-clockwise arc", "collinear triple", "general triple", "general triple with coordinates below 0.01"]);
     cx.assume("exact tangency (one point) is demanded only along exactly representable directions; elsewhere either neighbour count is accepted (gray)");
     let cs = cases(tier);
     let l = sweep(&cs, judge);
